@@ -37,6 +37,11 @@ def plan(tier, seed):
     for _ in range(16 if tier == 'quick' else 300):
         cases.append({'family': 'shared_operator', 'cseed': rnd.randrange(1 << 30), 'mode': rnd.choice(['euler', 'euler', 'probe']),
                       'spec_kind': 'shared_ops', 'force': rnd.choice(['wildcard_multi', 'wildcard_multi', None])})
+    # PopulationTemplate / Connectivity circuits: a 1-D input (broadcast to all units) converging with matrix, scalar-weight (incl.
+    # weight 1.0) and coupling connections on one variable must add up (machinery of C16)
+    for i in range(16 if tier == 'quick' else 300):
+        cases.append({'family': 'population', 'cseed': rnd.randrange(1 << 30), 'mode': 'euler', 'force_input': True,
+                      'want': 'conn_scalar' if i % 2 else None})
     # wide groups: one array broadcast / distributed to 11-16 nodes of one type
     for _ in range(16 if tier == 'quick' else 400):
         cases.append({'family': 'wide', 'cseed': rnd.randrange(1 << 30), 'mode': rnd.choice(['euler', 'euler', 'probe'])})
@@ -163,6 +168,19 @@ def input_values(plan_, k=None, t=None, T=None, N=None):
 
 
 def run_case(case, ctx):
+    if case.get('family') == 'population':
+        from vp.props import c16
+        if 'c16ctx' not in ctx:
+            ctx['c16ctx'] = {}
+            c16.warmup(ctx['c16ctx'])
+        if 'conn_scalar' in ctx['c16ctx'].get('open_risks', ()) and case.get('want') == 'conn_scalar':
+            case = dict(case, want=None)
+        res = c16.run_case(case, ctx['c16ctx'])
+        m = res.setdefault('mech', {})
+        m['population_input_cases'] = 1
+        if m.get('input_converges_with_connection'):
+            m['converging_inputs'] = m.get('converging_inputs', 0) + 1
+        return res
     spec, feats, risk, ref, vec, N, plan_ = make_case(case, ctx)
     mode = case['mode']
     mech = {}
